@@ -97,3 +97,14 @@ Proof.
   { eapply RS; [exact R4|]. apply (GDrop nodes adj s4 [] m32 []); [reflexivity|right; left; reflexivity]. }
   exists s5. repeat split; try exact R5; cbn; auto.
 Qed.
+
+(* A handled announcement that was not added: on a sorted table (every reachable table is, C11)
+   the receiver already holds a route to the origin, or the origin is a new gossip destination
+   whose routing prefix is over its limit — the one case excluded by the protocol abstraction. *)
+From Verif Require Import TableSorted.
+Theorem C09_not_added_has_route_or_full : forall cfg now t e0 t',
+  sorted t -> tpwf t -> add_route cfg now t e0 = Ok (t', false) ->
+  (exists x, In x t /\ e_dst x = e_dst e0) \/
+  (forall x, In x t -> e_dst x <> e_dst e0) /\ e_source e0 = src_gossip.
+Proof. exact not_added_has_route_or_full. Qed.
+Print Assumptions C09_not_added_has_route_or_full.
